@@ -10,6 +10,7 @@ H = {
     'aead': dict(name='aead', sources=['h_aead.c', 'trng_tape.c']),
     'perm': dict(name='perm', sources=['h_perm.c']),
     'sym': dict(name='sym', sources=['h_sym.c']),
+    'wipe': dict(name='wipe', sources=['h_wipe.cpp', 'trng_tape.c'], cxx=True, extra_flags=['-O3']),
     'prng': dict(name='prng', sources=['h_prng.c']),
     'hex': dict(name='hex', sources=['h_hex.cpp'], cxx=True),
     'bytearray': dict(name='bytearray', sources=['h_bytearray.cpp', core.REPO + '/src/cplusplus/ascon-byte-array.cpp', core.REPO + '/src/cplusplus/ascon-aead-cpp.cpp'], cxx=True, extra_flags=['-DASCON_NO_STL']),
